@@ -47,7 +47,7 @@ pub fn generate(ctx: &mut Ctx) {
             bi += 1;
         }
     }
-    let n = ctx.random_budget(240, 240_000, 3_000_000);
+    let n = ctx.random_budget(240, 240_000, 8_000_000);
     for i in 0..n {
         let mut rng = ctx.rng("ref", i);
         let mut o = gen::Opts::new(rng.chance(1, 2));
